@@ -143,6 +143,15 @@ for h, t, b, tier in [
 ]:
     add(h, t, b, tier=tier, role="long_distance" if "long" in h else "myers_simple", **({} if "long" in h else {"min_covers": 2}))
 
+# ---------------------------------------------------------------------------------------------------------------- C02
+add = prop("C02", "c02",
+ "Bounded model checking of the real banded::Aligner when the band covers the whole matrix (k longer than both sequences, hence no k-mer match): for each listed shape/mode ALL sequence contents and ALL enabled clip penalties are covered by one solver query; the returned path must be a valid alignment of the reported sub-ranges whose re-computed score equals the reported score, no competitor alignment the solver can pick may score higher (= equals the unbanded optimum), and the traceback must terminate (unwinding assertions; a loop of the code under test that does not finish is replayed natively and counts as a violation only if the native run hangs too).",
+ "Bound: see the instance list (shapes up to 2x2, concrete substitution table / gap penalties from three schemes, symbolic clip penalties in [-3,0] per enabled end, band width 0). " + TRUST + "Not decided: entry points that hash symbolic k-mers (custom with k <= len, *_with_prehash, custom_with_expanded_matches: FxHashMap with symbolic keys timed out), custom_with_matches/custom_with_match_path (timeout at 2x2 with one match), the MAX_CELLS sentinel (needs > 5*10^6 band cells), fully symbolic scoring (1x1 needs > 20 GB).",
+ ["bio::alignment::pairwise::banded::Aligner::{with_capacity_and_scoring,custom,global,semiglobal,local,compute_alignment}", "banded::Band::{create,full_matrix,num_cells}", "bio::alignment::sparse::{find_kmer_matches,hash_kmers} (zero iterations: k > len)", "pairwise::{Traceback,TracebackCell}"],
+ "see level_note", "everything listed as not decided; sequences longer than 2", ["scores in the ranges of c01::SCHEMES; clip penalties in [-3,0] or disabled"])
+add("c02_full_global_0x0", 24, "banded global(), both sequences empty, fully symbolic scoring: must terminate with the empty alignment", termination=True, role="banded_empty_both")
+add("c02_full_custom_0x0_k15", 78, "banded custom(), both sequences empty, all four clips enabled: must terminate", termination=True, role="banded_empty_both")
+
 # ---------------------------------------------------------------------------------------------------------------- C04
 add = prop("C04", "c04",
  "Bounded model checking of the real bwt(), less() and Occ::{new,get}: for each listed (length n, sampling rate k, alphabet) ALL byte strings over the alphabet (not only genuine BWTs), ALL rows r and ALL symbols c are covered by one solver query; Occ::get(r,c) must equal the count of c in bytes[0..=r], less[c] the number of symbols smaller than c for every c up to max_symbol+1, bwt[r] the cyclic predecessor of pos[r] for ANY pos array.",
@@ -156,25 +165,23 @@ for n, ks in [(4, [1, 2, 3, 4, 5, 8]), (6, [1, 2, 3, 4, 5, 6, 7, 12]), (8, [1, 3
 add("c04_less_n5_ac", 85, "less(), all strings of length 5 over {A,C,$}, alphabet {A,C,$}, every c <= 'C'+1")
 add("c04_less_n6_acg", 76, "less(), all strings of length 6 over {A,C,G,$}, alphabet {A,C,G}", tier="thorough")
 add("c04_less_n6_small", 12, "less(), all strings of length 6 over {0,1,3}")
+add("c04_less_n6_gap", 8, "less(), all strings of length 6 over {1,2} with alphabet {1,2,5} (a symbol above every text symbol), every c <= 6")
 add("c04_bwt_n1", 2, "bwt(text,pos) definition, n=1")
 add("c04_bwt_n4", 3, "bwt(text,pos) definition, n=4, all bytes, all pos arrays with entries < n")
 add("c04_bwt_n6", 3, "bwt(text,pos) definition, n=6")
 
 # ---------------------------------------------------------------------------------------------------------------- C19
 add = prop("C19", "c19",
- "Bounded model checking of the real q-gram machinery: for each listed (alphabet size, q, text length) ALL texts over the alphabet are covered by one solver query; RankTransform::qgrams must yield exactly the packed-rank code of every window (definition), codes of two windows are equal iff the windows are equal (injectivity), rev_qgrams mirrors qgrams, and QGramIndex::qgram_matches lists for the q-gram at a symbolic position exactly the ascending occurrence positions (or nothing above max_count).",
- "Bound: alphabets of size 1, 3 and 5 (small byte values), q in {1,2}, texts of length <= 4 (5 for the index). " + TRUST + "Alphabet sizes that are exact powers of two cannot be decided: the code computes ceil(log2(|A|)) in f32 and CBMC's model of log2f is not exact at powers of two (the solver reports spurious counterexamples that do not replay natively; such results are classified inconclusive, never violations), so those instances are not listed. Not decided: lcskpp/sdpkpp (Fenwick tree of symbolic length: out of memory at 2 matches), matches/exact_matches (std HashMap), find_kmer_matches* (FxHashMap with symbolic keys).",
- ["bio::alphabets::RankTransform::{new,get,qgrams,rev_qgrams}", "alphabets::QGrams::{next,qgram_push}", "alphabets::RevQGrams::{next,qgram_push_rev}", "bio::data_structures::qgram_index::QGramIndex::{with_max_count,qgram_matches}", "bio::utils::prescan"],
+ "Bounded model checking of the real q-gram machinery: for each listed (alphabet size, q, text length) ALL texts over the alphabet are covered by one solver query; RankTransform::qgrams must yield exactly the packed-rank code of every window (definition), codes of two windows are equal iff the windows are equal (injectivity), and rev_qgrams mirrors qgrams.",
+ "Bound: alphabets of size 1, 3 and 5 (small byte values), q = 2, texts of length <= 4. " + TRUST + "Alphabet sizes that are exact powers of two cannot be decided: the code computes ceil(log2(|A|)) in f32 and CBMC's model of log2f is not exact at powers of two (the solver reports spurious counterexamples that do not replay natively; such results are classified inconclusive, never violations), so those instances are not listed. Not decided: QGramIndex (its `pos` vector has a symbolic length; before the repair of finding F4 the index instances failed fast with the out-of-bounds counterexample, after the repair they exhaust memory - 7 min, crash - so they are no longer listed), lcskpp/sdpkpp (Fenwick tree of symbolic length: out of memory at 2 matches), matches/exact_matches (std HashMap), find_kmer_matches* (FxHashMap with symbolic keys).",
+ ["bio::alphabets::RankTransform::{new,get,qgrams,rev_qgrams}", "alphabets::QGrams::{next,qgram_push}", "alphabets::RevQGrams::{next,qgram_push_rev}", ],
  "see level_note", "alphabet sizes 2,4,8,...; q >= 3; longer texts; chaining; hash-based matching", [])
 for h, t, b in [
  ("c19_qgrams_a1_q2_n3", 14, "qgrams/rev_qgrams, |A|=1, q=2, text length 3"),
  ("c19_qgrams_a3_q2_n4", 23, "qgrams/rev_qgrams, |A|=3, q=2, all texts of length 4"),
  ("c19_qgrams_a5_q2_n4", 33, "qgrams/rev_qgrams, |A|=5, q=2, all texts of length 4"),
- ("c19_qgidx_a3_q2_n4", 400, "QGramIndex, |A|=3, q=2, all texts of length 4, symbolic position"),
- ("c19_qgidx_a5_q2_n4", 400, "QGramIndex, |A|=5, q=2, all texts of length 4"),
 ]:
     add(h, t, b, role="qgram")
-add("c19_qgidx_a3_q1_n4", 400, "QGramIndex, |A|=3, q=1, all texts of length 4", role="qgram", min_covers=1)
 
 # ---------------------------------------------------------------------------------------------------------------- C15
 add = prop("C15", "c15",
@@ -185,12 +192,12 @@ add = prop("C15", "c15",
 add("c15_prob_checked", 1, "Prob::checked(p).is_ok() <=> 0 <= p <= 1, all f64 bit patterns incl. NaN, +-inf, -0.0")
 add("c15_fastexp_range", 10, "fastexp for all doubles x <= 0 incl. -inf: not NaN, in [0,1.005], ~0 below -500, within 0.5 % at 0")
 for i in range(64):
-    add(f"c15_cellq_o0_{i:03d}", 45, f"fastexp accuracy, coarse cell {i}/64 of x*log2(e) in (-1,0]: all doubles in the cell", role="cell")
+    add(f"c15_cellq_o0_{i:03d}", 180, f"fastexp accuracy, coarse cell {i}/64 of x*log2(e) in (-1,0]: all doubles in the cell", role="cell")
 for o in (1, 8, 64, 512):
     for i in range(64):
-        add(f"c15_cellq_o{o}_{i:03d}", 45, f"fastexp accuracy, coarse cell {i}/64 of the octave x*log2(e) in ({-o-1},{-o}]", tier="rotate", role="cell")
+        add(f"c15_cellq_o{o}_{i:03d}", 180, f"fastexp accuracy, coarse cell {i}/64 of the octave x*log2(e) in ({-o-1},{-o}]", tier="rotate", role="cell")
 for i in range(256):
-    add(f"c15_cellt_o0_{i:03d}", 45, f"fastexp accuracy, fine cell {i}/256 of x*log2(e) in (-1,0]", tier="thorough", role="cell")
+    add(f"c15_cellt_o0_{i:03d}", 180, f"fastexp accuracy, fine cell {i}/256 of x*log2(e) in (-1,0]", tier="thorough", role="cell")
 P["C15"]["rotate_k"] = 16
 
 json.dump(P, open(os.path.join(V, "instances.json"), "w"), indent=1)
